@@ -9,6 +9,7 @@ import (
 	"strings"
 
 	"crverif/internal/an"
+	"crverif/internal/load"
 
 	"golang.org/x/tools/go/ssa"
 )
@@ -24,7 +25,7 @@ func init() {
 		Explanation: "PATH rules over listener.receiveRetry / listener.Listen / Advertiser.handle / Monitor.handle: " +
 			"R-C09-1 every returned message is gated by hop limit == 255; R-C09-2 an invalid message is counted once and dropped; " +
 			"R-C09-3 loop-carried delta of the retry counter is 0 on every back edge through the invalid-message branch (only timeouts consume the budget); " +
-			"R-C09-4 other message types are counted invalid once and ignored (no RA build, verify or hook); R-C09-5 an ignored message cannot end the receive loop R-C09-5 every success path of dialNDP enables hop-limit delivery (SetControlMessage(FlagHopLimit, true)) and installs an ICMPv6 filter that passes only types 133 and 134.",
+			"R-C09-4 other message types are counted invalid once and ignored (no RA build, verify or hook); R-C09-5 an ignored message cannot end the receive loop R-C09-5 every success path of dialNDP enables hop-limit delivery (SetControlMessage(FlagHopLimit, true)) and installs an ICMPv6 filter that passes only types 133 and 134; R-C09-6 no module code allocates an ipv6.ControlMessage, writes its HopLimit, or implements Conn.ReadFrom (the hop limit reaches the listener as the kernel reported it).",
 		Assumptions: []string{
 			"Go type checker and go/ssa construction are correct",
 			"path enumeration cuts loop back edges: each loop body is analysed for an arbitrary iteration (loop phis are symbols)",
@@ -71,6 +72,7 @@ func runC09(c *Ctx) {
 	}
 	c09Handle(c)
 	c09Listen(c)
+	c09HopLimitUnaltered(c)
 	if c.P.Cfg.GOOS == "linux" || c.P.Func("internal/system", "dialNDP") != nil {
 		c09Socket(c)
 	}
@@ -521,4 +523,41 @@ func keysOfInt(m map[int64]bool) []int64 {
 	}
 	sort.Slice(out, func(i, j int) bool { return out[i] < out[j] })
 	return out
+}
+
+
+// c09HopLimitUnaltered (R-C09-6): the hop limit the listener tests is the one
+// the kernel reported. Nothing in the module fabricates or rewrites an
+// ipv6.ControlMessage (no allocation of one, no store to its HopLimit), and no
+// module type implements system.Conn's ReadFrom (a wrapper around the real
+// connection could substitute the value before the listener sees it).
+func c09HopLimitUnaltered(c *Ctx) {
+	bad := ""
+	n := 0
+	for _, fn := range c.srcFuncs() {
+		n++
+		for _, b := range fn.Blocks {
+			for _, in := range b.Instrs {
+				switch x := in.(type) {
+				case *ssa.Alloc:
+					if strings.HasSuffix(typeStr(x.Type()), "ipv6.ControlMessage") {
+						bad = c.fname(fn) + " builds an ipv6.ControlMessage at " + c.pos(instrPos(x))
+					}
+				case *ssa.Store:
+					if fa, ok := x.Addr.(*ssa.FieldAddr); ok {
+						if _, typ, f := an.FieldAddrName(fa); typ == "ControlMessage" && f == "HopLimit" {
+							bad = c.fname(fn) + " writes ControlMessage.HopLimit at " + c.pos(x.Pos())
+						}
+					}
+				}
+			}
+		}
+		// a method named ReadFrom with system.Conn's result shape on a module type
+		if fn.Signature.Recv() != nil && fn.Name() == "ReadFrom" && fn.Signature.Results().Len() == 4 && fn.Pkg != nil && load.InModule(fn) &&
+			strings.HasSuffix(typeStr(fn.Signature.Results().At(1).Type()), "ipv6.ControlMessage") {
+			bad = "module type " + typeStr(fn.Signature.Recv().Type()) + " implements Conn.ReadFrom (" + c.pos(fn.Pos()) + ")"
+		}
+	}
+	c.R.Check(bad == "" && n > 0, "R-C09-6", "module:hop-limit-unaltered", "", "", fmt.Sprintf("%d function(s) scanned; %s", n, bad),
+		"received control messages come from the kernel only: no module code allocates an ipv6.ControlMessage, writes its HopLimit or wraps Conn.ReadFrom", "a message whose real hop limit is not 255 is presented to the listener as valid")
 }
